@@ -121,6 +121,10 @@ func (vc *VC) evalIdent(s *State, id *ast.Ident) *Term {
 						return zeroValue(o.Type()) // never assigned anywhere in the module, no initialiser
 					}
 				}
+				if _, known := vc.prog.GlobalInfo[o]; known {
+					// never assigned after initialisation: a constant of the run (its value is whatever the initialiser computed)
+					return vc.loaded(s, o.Type(), Const(smtName(vc.globalName(o))+".const", sortOf(o.Type())), o.Name())
+				}
 			}
 			return vc.loaded(s, o.Type(), vc.heapArr(s, vc.globalName(o), sortOf(o.Type())), o.Name())
 		}
